@@ -62,9 +62,15 @@ pub enum Op {
     Restart { fmt: Fmt, behaviour: ReadBehaviour, publish: bool },
     /// a SampleX whose scalar seam unwinds at its `at`-th event (cancellation)
     Aborted { point: Vec<u64>, ed: EdgeData, st: Settings, at: u64 },
+    /// a SampleX that unwinds out of the first user callback of ANY kind (arithmetic,
+    /// logger write, Debug::fmt of the scalar during debug printing) at or after `at`
+    AbortedAny { point: Vec<u64>, ed: EdgeData, st: Settings, at: u64, only_debug: bool },
     /// a SampleRng in which the first user callback (scalar arithmetic, RNG draw or
     /// logger write) at or after event `at` unwinds: a panicking RNG / logger
     AbortedRng { seed: u64, kind: RngKind, ed: EdgeData, st: Settings, at: u64 },
+    /// `n` samples at `n` DIFFERENT pseudo-random points; every one is compared with
+    /// a sampler without history (freshly restored from the image every 64 calls)
+    Burst { seed: u64, n: u64, ed: EdgeData, st: Settings },
     /// SimStore image of the sampler in use
     ImageCheck,
     /// the same operation `n` times in a row
@@ -85,8 +91,10 @@ impl Op {
             Op::Persist { .. } => "persist",
             Op::Restart { .. } => "restart",
             Op::Aborted { .. } => "aborted_sample",
+            Op::AbortedAny { .. } => "aborted_sample_any_callback",
             Op::AbortedRng { .. } => "aborted_rng_sample",
             Op::ImageCheck => "image",
+            Op::Burst { .. } => "burst",
             Op::Repeat { .. } => "repeat",
             Op::Alt(o) => o.tag(),
         }
@@ -200,6 +208,9 @@ fn exec_on(envs: &[Arc<Env>], e: usize, cs: &mut ClientState, op: &Op, record_tr
     let faults = match op {
         Op::Aborted { at, .. } => vec![Fault { at: *at, kind: FaultKind::Unwind }],
         Op::AbortedRng { at, .. } => vec![Fault { at: *at, kind: FaultKind::UnwindAny }],
+        Op::AbortedAny { at, only_debug, .. } => {
+            vec![Fault { at: *at, kind: if *only_debug { FaultKind::UnwindDebug } else { FaultKind::UnwindAny } }]
+        }
         _ => vec![],
     };
     if let Op::Repeat { op: inner, n } = op {
@@ -244,7 +255,7 @@ fn exec_on(envs: &[Arc<Env>], e: usize, cs: &mut ClientState, op: &Op, record_tr
     let mut aux = Vec::new();
     let on_restored = current2(env, cs, e).1;
     let outcome = match op {
-        Op::SampleX { point, ed, st } | Op::Aborted { point, ed, st, .. } => {
+        Op::SampleX { point, ed, st } | Op::Aborted { point, ed, st, .. } | Op::AbortedAny { point, ed, st, .. } => {
             let s = current(env, cs, e);
             s.sample_x(point, ed, st)
         }
@@ -321,6 +332,37 @@ fn exec_on(envs: &[Arc<Env>], e: usize, cs: &mut ClientState, op: &Op, record_tr
             }
         }
         Op::ImageCheck => Outcome::Image(current(env, cs, e).image().digest()),
+        Op::Burst { seed, n, ed, st } => {
+            let s = current(env, cs, e);
+            let dim = s.dimension();
+            let image = s.image();
+            let mut checker: Option<Box<dyn Sampler>> = None;
+            let mut r = crate::util::SplitMix::new(*seed);
+            let mut h = 0xb5u64;
+            let mut diverged: Option<(u64, String, String)> = None;
+            for i in 0..*n {
+                if i % 64 == 0 {
+                    checker = sampler::restore_tree(env.spec.d, &image, ReadBehaviour::plain()).ok();
+                }
+                let pt: Vec<u64> = (0..dim).map(|_| r.unit_open().to_bits()).collect();
+                let o = s.sample_x(&pt, ed, st);
+                h = mix(h, outcome_digest(&o));
+                if let Some(c) = &checker {
+                    let o2 = c.sample_x(&pt, ed, st);
+                    if !o.same(&o2) {
+                        diverged = Some((i, o.short(), o2.short()));
+                        break;
+                    }
+                }
+            }
+            match diverged {
+                Some((i, a, b)) => Outcome::Err(format!(
+                    "burst diverged at call {}: sampler with history {} vs sampler without history {}",
+                    i, a, b
+                )),
+                None => Outcome::Image(h),
+            }
+        }
         Op::Repeat { .. } | Op::Alt(_) => unreachable!(),
     };
     let st = ctx::end_op();
@@ -585,6 +627,20 @@ pub fn run_scenario(sc: &Scenario, opts: &RunOpts) -> RunReport {
                     r.outcome = x.outcome;
                     r.aux = vec![native];
                 }
+                Op::Burst { .. } => {
+                    if let Outcome::Err(m) = &r.outcome {
+                        if m.starts_with("burst diverged") {
+                            violations.push(Violation {
+                                class: "result-depends-on-call-history".into(),
+                                client: ci,
+                                op: oi,
+                                op_tag: "burst".into(),
+                                expected: "every sample equal to the one a sampler without history gives".into(),
+                                observed: m.clone(),
+                            });
+                        }
+                    }
+                }
                 Op::SampleX { point, ed, st } => {
                     if point.iter().any(|b| {
                         let v = f64::from_bits(*b);
@@ -787,7 +843,7 @@ pub fn run_scenario(sc: &Scenario, opts: &RunOpts) -> RunReport {
             // an injected unwind fires at a seam-event index, and event numbering
             // differs between build variants (hash-key / logger events): its own
             // outcome is not comparable across builds and is left out
-            if !matches!(sc.clients[ci].ops[oi].strip().1, Op::Aborted { .. } | Op::AbortedRng { .. }) {
+            if !matches!(sc.clients[ci].ops[oi].strip().1, Op::Aborted { .. } | Op::AbortedRng { .. } | Op::AbortedAny { .. }) {
                 results_digest = mix(mix(mix(results_digest, ci as u64), oi as u64), outcome_digest(&r.outcome));
             }
             let op = &sc.clients[ci].ops[oi];
@@ -819,6 +875,18 @@ pub fn run_scenario(sc: &Scenario, opts: &RunOpts) -> RunReport {
                     expected: exp.outcome.short(),
                     observed: r.outcome.short(),
                 });
+            }
+            if let (Op::Burst { .. }, Outcome::Err(m)) = (inner, &r.outcome) {
+                if m.starts_with("burst diverged") && exp.outcome.same(&r.outcome) {
+                    violations.push(Violation {
+                        class: "result-depends-on-call-history".into(),
+                        client: ci,
+                        op: oi,
+                        op_tag: "burst".into(),
+                        expected: "every sample equal to the one a sampler without history gives".into(),
+                        observed: m.clone(),
+                    });
+                }
             }
             if let Op::SampleRng { .. } = inner {
                 if r.aux.first() != exp.aux.first() && !matches!(r.outcome, Outcome::Panicked(_)) {
